@@ -98,7 +98,7 @@ def phase(rep, pid, tier, sources=None):
             f"{drift[0]['id']} {drift[0]['dialect']} {B.describe(drift[0])}")
     cov = {"backend_machine": {
         "design_level": {"states": info.get("distinct"), "transitions": info.get("generated"), "pipelines": len(pipes),
-                         "bound": info.get("bound"), "deeper": info.get("deeper"),
+                         "bound": info.get("bound"), "deeper": info.get("deeper"), "take_composition_law": info.get("window_law"),
                          "invariants": ["EmittedOk", "NoLoss", "Progress", "Closed"], "holds": not info.get("design_violation", False),
                          "machine_as_found_violates": info.get("unrepaired_machine_violates")},
         "replay_of_model_pipelines": None if r1 is None else {"pipelines": len(sample), "compilations": r1["compiled"] + r1["errors"] + r1["panics"], "splits": r1["splits"], "selects": r1["selects"], "drift": len(r1["drift"])},
